@@ -18,7 +18,7 @@ func init() {
 }
 
 var byzKinds = []string{"honest", "notfound", "prefix", "shifted", "repeated", "reordered", "more", "forged", "wrong-chain",
-	"undecodable", "unknown-status", "garbage", "truncated", "empty", "hang", "reset", "slow", "bad-validate", "shifted-back"}
+	"undecodable", "unknown-status", "garbage", "truncated", "empty", "hang", "reset", "slow", "bad-validate", "shifted-back", "shifted-short", "empty-chain"}
 
 // byzReply builds the reply of a scripted peer for a range request.
 func byzReply(s *core.Sim, rng *core.Tape, ch *simhdr.Chain, kind string, req *p2p_pb.HeaderRequest, timeout time.Duration) Reply {
@@ -48,6 +48,21 @@ func byzReply(s *core.Sim, rng *core.Tape, ch *simhdr.Chain, kind string, req *p
 		r.Frames = okFrames(hon(o, k)...)
 	case "shifted":
 		r.Frames = okFrames(hon(o+1+uint64(rng.Draw("shift", 5)), a)...)
+	case "shifted-short":
+		// starts above the requested origin but ends where the request ends
+		if a > 1 {
+			d := uint64(1 + rng.Draw("shift", int(a-1)))
+			r.Frames = okFrames(hon(o+d, a-d)...)
+		} else {
+			r.Frames = okFrames(hon(o+1, 1)...)
+		}
+	case "empty-chain":
+		hs := hon(o, a)
+		i := rng.Draw("ec-at", len(hs))
+		c := simhdr.Clone(hs[i])
+		c.Chain = ""
+		hs[i] = c.Sign()
+		r.Frames = okFrames(hs...)
 	case "shifted-back":
 		d := uint64(1 + rng.Draw("shift", 3))
 		if o > d+ch.First {
